@@ -14,6 +14,10 @@
     [dinv] (see props/C08.v), with the cursor on a non-OPT record of the reading, a successful set_rr_ttl leaves a state
     satisfying [dinv] whose reading is the old one with exactly that record's TTL replaced - no footprint hypothesis:
     a pointer-free packet has no name that could be read through the four bytes written.
+    Deletion on a decompressed object (C09_delete_on_decompressed): from any state satisfying [dinv], with the cursor on a
+    non-OPT record of the reading of any of the three record sections, a successful delete leaves a state satisfying [dinv]
+    whose three record lists are the old ones with exactly that record removed (the others in their order, with their names,
+    types, classes, TTLs and data, placed back to back), only that section's count lowered, the flag word as it was.
     For the other operations the refinement to the abstract message operations is decided each
     run by the correspondence and the abstract-effect oracle (gen/hist.py).  Also proved: the byte
     level effect of insertion (the record is spliced at the insertion offset of the packet with one
@@ -27,7 +31,7 @@
     second record in the implementation (known finding data-pointer). *)
 From DV Require Import Model.Base Model.NameCheck Model.Parser Model.Header Model.Readers Model.Uncompress
   Model.Mutate Spec.NameSpec Spec.PacketSpec Spec.RecordSpec Proofs.Hoare Proofs.HeaderBits Proofs.InsertLemmas
-  Spec.PlainSpec Proofs.WalkValues Proofs.SetTtl Proofs.WalkSkip Proofs.PlainWf Proofs.InsertSpec Proofs.SetTtlInv.
+  Spec.PlainSpec Proofs.WalkValues Proofs.SetTtl Proofs.WalkSkip Proofs.PlainWf Proofs.InsertSpec Proofs.SetTtlInv Proofs.DeleteInv.
 From Coq Require Import Lia.
 
 Theorem C09_insert_appends : forall sec rr v it s',
@@ -210,3 +214,21 @@ Theorem C09_set_ttl_on_decompressed : forall v it t s' qls qt lA lN lR r x,
     lA ++ lN ++ lR = L1 ++ (r, x) :: L2 /\ lA' ++ lN' ++ lR' = L1 ++ (rv_with_ttl r t, x) :: L2.
 Proof. exact set_ttl_keeps_dinv. Qed.
 Print Assumptions C09_set_ttl_on_decompressed.
+
+(** delete: [A Nn R] are the records of the three sections without their positions ([place] puts them back to back from the
+    end of the question); the record under the cursor is [r0] with data [x], between [X1] and [X2] *)
+Theorem C09_delete_on_decompressed : forall v it s' qls qt lA lN lR r x,
+  dinv v -> reading (pp_packet v) qls qt lA lN lR -> In (r, x) (lA ++ lN ++ lR) -> is_opt r = false ->
+  it_offset it = Some (rv_off r) -> it_name_end it = rv_name_end r -> it_offset_next it = rv_name_end r + 10 + rv_rdlen r ->
+  m_delete (v, it) = (s', Ok tt) ->
+  dinv (fst s') /\ it_offset (snd s') = None /\
+  exists A Nn R A' Nn' R' X1 r0 X2,
+    let o1 := 12 + length (wire_of_labels qls) + 4 in
+    lA = place o1 A /\ lN = place (o1 + length (cat A)) Nn /\ lR = place (o1 + length (cat A) + length (cat Nn)) R /\
+    reading (pp_packet (fst s')) qls qt (place o1 A') (place (o1 + length (cat A')) Nn') (place (o1 + length (cat A') + length (cat Nn')) R') /\
+    A ++ Nn ++ R = X1 ++ (r0, x) :: X2 /\ A' ++ Nn' ++ R' = X1 ++ X2 /\ r = rv_at r0 x (o1 + length (cat X1)) /\
+    ((length A' + 1 = length A /\ Nn' = Nn /\ R' = R) \/ (A' = A /\ length Nn' + 1 = length Nn /\ R' = R) \/
+     (A' = A /\ Nn' = Nn /\ length R' + 1 = length R)) /\
+    (forall w0, u16_at (pp_packet v) 2 w0 -> u16_at (pp_packet (fst s')) 2 w0).
+Proof. exact delete_keeps_dinv. Qed.
+Print Assumptions C09_delete_on_decompressed.
